@@ -25,6 +25,9 @@ open Comet Comet.Driver
 structure St where
   /-- sequential answers: (goroutine, search number) ↦ canonical hit list -/
   seqs : List ((Nat × Nat) × String) := []
+  /-- id restriction of a search (WithDocumentIDs / metadata pre-filter): `none` = unrestricted -/
+  filts : List ((Nat × Nat) × List Nat) := []
+  filtered : Nat := 0
   pars : Nat := 0
   multi : Nat := 0
   nonempty : Nat := 0
@@ -40,13 +43,30 @@ def firstDiff (a b : String) : String :=
   let missing := xs.filter fun x => !ys.contains x
   s!"sequential n={xs.length} concurrent n={ys.length} not-in-sequential={extra.take 4} missing={missing.take 4}"
 
+/-- an answer must lie inside its own search's id restriction -/
+def outside (filt : Option (List Nat)) (hits : String) : Option Nat :=
+  match filt with
+  | none => none
+  | some allowed =>
+    if hits == "-" then none else
+    (hits.splitOn ",").findSome? fun t =>
+      match ((t.splitOn ":").headD "").toNat? with
+      | some id => if allowed.contains id then none else some id
+      | none => none
+
 def op (st : St) (toks : List String) : St × String :=
   let (pre, post) := splitOutcome toks
   match pre with
-  | ["seq", g, i, _kind, _agg, nq] =>
+  | ["seq", g, i, _kind, _agg, nq, filt] =>
     match g.toNat?, i.toNat?, nq.toNat?, post with
     | some g, some i, some nq, ["ok", hits] =>
+      let f : Option (List Nat) := if filt == "all" then none else parseIds filt
+      match outside f hits with
+      | some id => (st, s!"SPECFAIL inside_restriction search {i} of goroutine {g} (sequential run) returned id {id}, which is outside the id restriction it was given")
+      | none =>
       ({ st with seqs := ((g, i), hits) :: st.seqs, multi := st.multi + (if nq ≥ 2 then 1 else 0),
+                 filts := match f with | some l => ((g, i), l) :: st.filts | none => st.filts,
+                 filtered := st.filtered + (if f.isSome then 1 else 0),
                  nonempty := st.nonempty + (if hits != "-" then 1 else 0) }, "ok")
     | some _, some _, some _, _ => (st, s!"SPECFAIL sequential search failed: {post}")
     | _, _, _, _ => ({ st with bad := some "seq" }, "BADOP seq")
@@ -55,6 +75,9 @@ def op (st : St) (toks : List String) : St × String :=
     | some g, some i =>
       match st.seqs.find? (·.1 == (g, i)), post with
       | some (_, want), ["ok", hits] =>
+        match outside ((st.filts.find? (·.1 == (g, i))).map (·.2)) hits with
+        | some id => (st, s!"SPECFAIL inside_restriction search {i} of goroutine {g} returned id {id}, which is outside the id restriction it was given (another search's restriction was applied)")
+        | none =>
         if hits == want then ({ st with pars := st.pars + 1 }, "ok")
         else (st, s!"SPECFAIL concurrent_equals_sequential with no writer running, search {i} of goroutine {g} answered differently from its sequential run: {firstDiff want hits}")
       | some _, _ => (st, s!"SPECFAIL no_spurious_error concurrent search failed: {post}")
@@ -64,7 +87,7 @@ def op (st : St) (toks : List String) : St × String :=
   | ["judge"] =>
     match st.bad with
     | some b => (st, s!"BADOP {b}")
-    | none => (st, s!"ok pars={st.pars} seqs={st.seqs.length} multi={if st.multi > 0 then 1 else 0} nonempty={if st.nonempty > 0 then 1 else 0}")
+    | none => (st, s!"ok pars={st.pars} seqs={st.seqs.length} filtered={if st.filtered > 0 then 1 else 0} multi={if st.multi > 0 then 1 else 0} nonempty={if st.nonempty > 0 then 1 else 0}")
   | _ => ({ st with bad := some "unknown" }, "BADOP unknown")
 
 def handler : Handler := { name := "magg", σ := St, init := init, op := op }
@@ -109,10 +132,12 @@ def agreeFail (mods : List (Nat × String)) (im : Image) : Option String :=
     if has 'v' fl != im.vec.contains id then some s!"document table says vector={has 'v' fl} for id {id}, the vector image says {im.vec.contains id}"
     else if has 't' fl != im.txt.contains id then some s!"document table says text={has 't' fl} for id {id}, the text image says {im.txt.contains id}"
     else if has 'm' fl != im.md.contains id then some s!"document table says metadata={has 'm' fl} for id {id}, the metadata image says {im.md.contains id}"
-    else match mods.find? (·.1 == id) with
-      | some (_, m) => if m.toList.all (has · fl) && fl.toList.all (has · m) then none
-                       else some s!"id {id} was added with modalities '{m}', the document table says '{fl}'"
-      | none => none
+    else
+      -- an id may have been added several times (re-added after / while being removed): the table
+      -- must show one of the modality sets it was added with
+      let ms := (mods.filter (·.1 == id)).map (·.2)
+      if ms.isEmpty || ms.any (fun m => m.toList.all (has · fl) && fl.toList.all (has · m)) then none
+      else some s!"id {id} was added with modalities {ms}, the document table says '{fl}'"
   match bad1 with
   | some w => some w
   | none =>
@@ -133,8 +158,10 @@ def judge (st : St) : String :=
     match errs with
     | e :: _ => s!"SPECFAIL no_spurious_error {e}"
     | [] =>
-      match ims.findSome? fun im => (agreeFail st.mods im).map fun w => s!"image written by g={im.g} @[{im.inv},{im.resp}]: {w}" with
-      | some w => s!"SPECFAIL image_consistent a serialised image is torn — {w}"
+      match ims.findSome? fun im => (agreeFail st.mods im).map fun w =>
+          if im.g == 998 then s!"the LIVE index at quiescence @[{im.inv},{im.resp}]: {w}"
+          else s!"image written by g={im.g} @[{im.inv},{im.resp}]: {w}" with
+      | some w => s!"SPECFAIL image_consistent document table and sub-indexes disagree — {w}"
       | none =>
         -- an image is one atomic read of the document set: judged like a search
         let h := rs.filterMap toHOp ++ ims.map fun im =>
